@@ -76,9 +76,28 @@ def run_harness(args, *, stdin=None, timeout=600, env=None, check=True):
     return p
 
 
-def run_harness_json(args, payload, **kw):
-    """Send a JSON document on stdin, parse the JSON document printed on stdout."""
-    p = run_harness(args, stdin=json.dumps(payload), **kw)
+def crash_text(stderr):
+    """Text of a Go panic / fatal error of the harness process, if its stderr shows one."""
+    for marker in ("panic: ", "fatal error: ", "[signal SIG"):
+        i = stderr.find(marker)
+        if i >= 0:
+            return stderr[i:i + 3000]
+    return None
+
+
+def run_harness_json(args, payload, crash_ok=False, **kw):
+    """Send a JSON document on stdin, parse the JSON document printed on stdout.  With crash_ok a
+    process that died with a Go panic / fatal error is reported as {"_crash": text} (the real code
+    crashed under the workload) instead of a broken check."""
+    if crash_ok:
+        p = run_harness(args, stdin=json.dumps(payload), check=False, **kw)
+        if p.returncode != 0:
+            ct = crash_text(p.stderr)
+            if ct and "/repo/" in p.stderr:
+                return {"_crash": ct}
+            raise Broken("harness %s failed rc=%s\nstderr:\n%s" % (" ".join(args), p.returncode, p.stderr[-4000:]))
+    else:
+        p = run_harness(args, stdin=json.dumps(payload), **kw)
     try:
         return json.loads(p.stdout)
     except ValueError:
